@@ -551,6 +551,7 @@ func TestVerif_C20(t *testing.T) {
 	c20RunJoinOrders(c, []string{"n2", "n10", "n1", "N3", "a_b", "a-b"}, "A")
 	if c.Thorough() {
 		c20RunJoinOrders(c, []string{"z", "0f3e", "n10", "a-b", "n1", "N3"}, "B")
+		c20RunJoinOrders(c, []string{"a_b", "z", "n2", "0f3e", "N3", "n10", "a-b"}, "C7") // all orders of up to 7 nodes
 	}
 	c.AddValidated(c.Evaluations)
 	c.Assume("gossip-managed membership (node IDs present); static host lists excluded as the property states; the empty node set is excluded")
